@@ -170,6 +170,8 @@ func isDigit(c byte) bool { return c >= '0' && c <= '9' }
 // refParseLoose is refParse for files that may end with an unterminated entry (e.g. a file truncated by a crash):
 // the complete entries are returned, the dangling tail is ignored.
 func refParseLoose(data string) []Entry {
+	// CRLF line ends (a checkout with autocrlf): every reader of the format drops the CR at the end of a line
+	data = strings.ReplaceAll(data, "\r\n", "\n")
 	es, err := refParse(data)
 	if err == nil {
 		return es
